@@ -59,7 +59,72 @@ ST = "evo.core.metrics.StatisticsType"
 SI = {"millimeters": 1e-3, "centimeters": 1e-2, "meters": 1.0,
       "kilometers": 1e3}
 ANGLES = ("degrees", "radians")
+# the units the property speaks about (pinned tree); members added later are
+# outside its quantifier
+PROPERTY_UNITS = tuple(SI) + ANGLES + ("none", "percent", "frames",
+                                       "seconds")
 ERR = tm.attr(mm.SELF, "error")
+
+
+def _number(prog, t: T, depth: int = 0) -> Optional[float]:
+    """numeric value of a constant expression: literals, math.pi, + - * / **,
+    lookups in (merged) dict displays keyed by enum members, and calls of evo
+    functions on constant arguments (evaluated by interpreting them)"""
+    import math
+    it = Interp(prog)
+    t = it.unname(t)
+    if depth > 8:
+        return None
+    if tm.is_const(t) and isinstance(tm.const_val(t), (int, float)) and \
+            not isinstance(tm.const_val(t), bool):
+        return float(tm.const_val(t))
+    if t.op == "global" and t.args[0] in ("math.pi", "numpy.pi"):
+        return math.pi
+    if t.op == "unop" and t.args[0] == "USub":
+        x = _number(prog, t.args[1], depth + 1)
+        return None if x is None else -x
+    if t.op == "binop" and t.args[0] in ("Add", "Sub", "Mult", "Div", "Pow"):
+        a = _number(prog, t.args[1], depth + 1)
+        b = _number(prog, t.args[2], depth + 1)
+        if a is None or b is None:
+            return None
+        try:
+            return {"Add": a + b, "Sub": a - b, "Mult": a * b,
+                    "Div": a / b, "Pow": a ** b}[t.args[0]]
+        except (ZeroDivisionError, OverflowError):
+            return None
+    def resolve(d: T) -> T:
+        d = it.unname(d)
+        if d.op == "global" and d.args[0].startswith("evo."):
+            obj = prog.lookup(d.args[0])
+            if isinstance(obj, tuple) and obj[0] == "const":
+                from ..interp import Frame
+                d = it.unname(it.eval(obj[3], Frame(None, obj[1], {}, {},
+                                                    None, 99), tm.TRUE))
+        return d
+    if t.op == "sub":
+        d, k = resolve(t.args[0]), it.unname(t.args[1])
+        if d.op == "dict" and k.op in ("enum", "const"):
+            def find(dd):
+                for kk, vv in reversed(dd.args):
+                    if isinstance(kk, T) and kk.op == "star":
+                        inner = resolve(vv)
+                        if inner.op == "dict":
+                            r_ = find(inner)
+                            if r_ is not None:
+                                return r_
+                    elif it.unname(kk) == k:
+                        return vv
+                return None
+            v = find(d)
+            return None if v is None else _number(prog, v, depth + 1)
+    if t.op == "call" and t.args[0].op == "func" and not t.args[2] and all(
+            it.unname(a).op in ("enum", "const") for a in t.args[1]):
+        fn = prog.functions.get(t.args[0].args[0])
+        if fn is not None and len(fn.params) == len(t.args[1]):
+            r = Interp(prog).run(fn, dict(zip(fn.params, t.args[1])))
+            return _number(prog, r.ret, depth + 1)
+    return None
 
 
 def _strip_float(t: T) -> T:
@@ -268,7 +333,9 @@ def _units(ctx):
         for k, v in tbl.args:
             if k.op == "enum" and tm.is_const(v):
                 got[k.args[1]] = float(v.args[1])
-    ok = got == SI
+    # (further length units may be added; the property's four must keep
+    # their SI factors)
+    ok = all(got.get(k) == v for k, v in SI.items())
     ctx.ob("C12.2", "evo/core/units.py (METER_SCALE_FACTORS)", ok,
            "METER_SCALE_FACTORS equals the SI table (mm 1e-3, cm 1e-2, m 1, "
            "km 1e3)" if ok else
@@ -278,13 +345,18 @@ def _units(ctx):
         if lens.op == "tuple" else set()
     aset = {x.args[1] for x in angs.args if x.op == "enum"} \
         if angs.op == "tuple" else set()
-    ok = lset == set(SI) and aset == set(ANGLES)
+    others = set(PROPERTY_UNITS) - set(SI) - set(ANGLES)
+    ok = set(SI) <= lset and set(ANGLES) <= aset and not (lset & aset) and \
+        not ((lset | aset) & others) and not (lset & set(ANGLES)) and \
+        not (aset & set(SI))
     ctx.ob("C12.2", "evo/core/units.py (LENGTH_UNITS/ANGLE_UNITS)", ok,
            "LENGTH_UNITS / ANGLE_UNITS are exactly the length / angle units"
            if ok else f"LENGTH_UNITS={lset}, ANGLE_UNITS={aset}",
            key="C12.2:unit-classes")
     f = prog.func(f"{PE}.change_unit")
-    for cur, new in itertools.product(units, repeat=2):
+    ctx.require(set(PROPERTY_UNITS) <= set(units),
+                f"Unit members changed: {units}")
+    for cur, new in itertools.product(PROPERTY_UNITS, repeat=2):
         cu, nu = tm.enum(uq, cur), tm.enum(uq, new)
         r = Interp(prog).run(f, {"new_unit": nu}, None,
                              preset_attrs={(mm.SELF, "unit"): cu})
@@ -337,10 +409,10 @@ def _units(ctx):
                 fac = None
                 if final_err is not None and final_err.op == "binop" and \
                         final_err.args[0] == "Mult" and \
-                        final_err.args[1] is ERR and \
-                        tm.is_const(final_err.args[2]):
-                    fac = float(final_err.args[2].args[1])
-                    ok = abs(fac - want) <= 1e-15 * max(1.0, abs(want))
+                        final_err.args[1] is ERR:
+                    fac = _number(prog, final_err.args[2])
+                    ok = fac is not None and \
+                        abs(fac - want) <= 1e-15 * max(1.0, abs(want))
                 ctx.ob("C12.2", f, ok,
                        f"change_unit[{pair}]: values *= {want:g}" if ok else
                        f"change_unit[{pair}]: values are multiplied by "
@@ -355,6 +427,17 @@ def _units(ctx):
                 ok = final_err is not None and is_call_to(
                     final_err, conv, alt) and final_err.args[1] and \
                     final_err.args[1][0] is ERR
+                if not ok and final_err is not None and \
+                        final_err.op == "binop" and \
+                        final_err.args[0] == "Mult" and \
+                        final_err.args[1] is ERR:
+                    # one multiplication by the float nearest to 180/pi
+                    # (pi/180) is what rad2deg (deg2rad) does
+                    import math
+                    want = 180.0 / math.pi if cur == "radians" else \
+                        math.pi / 180.0
+                    fac = _number(prog, final_err.args[2])
+                    ok = fac is not None and fac == want
                 ctx.ob("C12.2", f, ok,
                        f"change_unit[{pair}]: values := "
                        f"{conv.split('.')[1]}(values)" if ok else
